@@ -501,7 +501,8 @@ class Plumbing:
         if isinstance(e, ast.Call):
             fn = dotted(e.func) or ""
             q = self.prog.qualify(f.module, fn) if fn else ""
-            if q in ("numpy.asarray", "numpy.array") and len(e.args) == 1 and not [k for k in e.keywords if k.arg != "dtype" or src(k.value) not in ("float", "np.float64", "numpy.float64")]:
+            if q in ("numpy.asarray", "numpy.array") and len(e.args) == 1 and not [k for k in e.keywords if not ((k.arg == "dtype" and src(k.value) in ("float", "np.float64", "numpy.float64"))
+                                                                                                                 or (k.arg == "copy" and src(k.value) in ("True", "None")))]:
                 return self._classify_load(f, e.args[0], roots, env, wrap)
             if isinstance(e.func, ast.Attribute) and e.func.attr in ("to_numpy",) and not e.args and all(k.arg == "dtype" and src(k.value) in ("np.float64", "float", "numpy.float64") for k in e.keywords):
                 sel = e.func.value
